@@ -1133,6 +1133,10 @@ func errIndex(fn *ssa.Function) int {
 // res<i>(call<f>(args)) (or call<f> for single results) is replaced by f's
 // success-return term with parameters substituted. Depth-bounded.
 func (e *termEngine) expand(t *Term, depth int) *Term {
+	return e.P.foldGlobals(e.expandRaw(t, depth))
+}
+
+func (e *termEngine) expandRaw(t *Term, depth int) *Term {
 	if depth <= 0 {
 		return t
 	}
@@ -1183,7 +1187,7 @@ func (e *termEngine) expand(t *Term, depth int) *Term {
 		if r.contains(selfCall) {
 			return &Term{Op: "rec", S: call.S}
 		}
-		return e.expand(r, depth-1)
+		return e.expandRaw(r, depth-1)
 	})
 }
 
